@@ -37,7 +37,8 @@ RULE = ('(a) seeded schedules (uniform / jittered / gapped IMU, time_step 0.1x i
         '1e-4 rad/s, 0.03 m/s^2); (c) both filters run twice with the same model objects; non-trivial = every case (the tests never compare the '
         'filters with each other or with free inertial integration and run each once); distinct = distinct seeds'
         ' Round 3: ladders with two DISTINCT measurement epochs between the same two IMU samples (unsynchronised receivers) and ladders with the IMU mounted upside down (roll swinging through +-180).'
-        ' Round 4: ladders in which the feedforward filter gets the computed trajectory at half / a quarter of the increments rate (epochs on the decimated grid).')
+        ' Round 4: ladders in which the feedforward filter gets the computed trajectory at half / a quarter of the increments rate (epochs on the decimated grid).'
+        ' Round 5: ladders on a time origin of 4e5 s (seconds of week); allowance 0.15 sd for off-grid epochs.')
 ASSUMPTIONS = ['off-grid measurement epochs: allowance 0.15 sd instead of 0.05 (thorough-run calibration: 0.103 sd with dense clustered fixes)', 'F = 0.05 sd is an ABSOLUTE allowance (the one place an absolute number is used): piecewise-constant F over a covariance step, increment '
                'cross-terms ignored by the bias model and the neglected terms of C04 leave a first-order, scale-independent remainder (calibration: <= 0.022 sd over 600 ladders) in '
                'this workload domain (time_step <= 0.5 s, IMU step 12.5 ms, horizon <= 40 s)']
